@@ -9,9 +9,9 @@ import numpy as np
 
 from common import R, Ro, fl
 
-from common import wiring_pre_build as pre_build  # noqa: E402,F401
+from common import all_pre_build as pre_build  # noqa: E402,F401
 
-LEAN_MODULES = ["PyomaVerif.Props.C16", "PyomaVerif.Props.C16Extract", "PyomaVerif.Mutants.C16", "PyomaVerif.Mutants.C16Extract", "PyomaVerif.Props.WiringMpe", "PyomaVerif.Props.WiringClass", "PyomaVerif.Props.WiringCalls", "PyomaVerif.Props.WiringPick"]
+LEAN_MODULES = ["PyomaVerif.Props.C16", "PyomaVerif.Props.C16Extract", "PyomaVerif.Mutants.C16", "PyomaVerif.Mutants.C16Extract", "PyomaVerif.Props.WiringMpe", "PyomaVerif.Props.WiringClass", "PyomaVerif.Props.WiringCalls", "PyomaVerif.Props.WiringPick", "PyomaVerif.Props.WiringDialog"]
 THEOREMS = [
     # call-site wiring of the class layer, regenerated from /repo on every run (translate_wiring.py)
     "PV.WiringMpe.C16_handover_wiring",
@@ -33,6 +33,17 @@ THEOREMS = [
     "PV.WiringPick.C16_init_wired",
     "PV.WiringPick.C16_dialog_wired_stab",
     "PV.WiringPick.C16_dialog_wired_fdd",
+    # what the dialog searches, who may write the selection, the button codes, the sort per plot type — regenerated from
+    # support/sel_from_plot.py + the SelFromPlot(...) sites of algorithms/*.py by translate_dialog.py (Generated/Dialog.lean)
+    "PV.WiringDialog.C16_pick_source",
+    "PV.WiringDialog.C16_state_writers",
+    "PV.WiringDialog.C16_state_writers_nonvacuous",
+    "PV.WiringDialog.C16_button_branches",
+    "PV.WiringDialog.C16_click_from_source_stab",
+    "PV.WiringDialog.C16_click_from_source_fdd",
+    "PV.WiringDialog.C16_apply_role_from_source_stab",
+    "PV.WiringDialog.C16_apply_role_from_source_fdd",
+    "PV.WiringDialog.C16_sort_per_plot",
     "PV.C16.C16_refine",
     "PV.C16.C16_handover",
     "PV.C16.C16_fdd",
@@ -67,7 +78,11 @@ RULE = (
     "pLSCF and FDD dialogs (redraw stubbed), plus random longer histories over random tables incl. malformed events "
     "(click outside the axes, other buttons/keys, all-NaN columns) with the real redraw; hand-over: the real SSI_mpe/"
     "pLSCF_mpe called as mpe_from_plot calls them with the dialog's (sel_freq, pole_ind) vs C11's models ssiMpe/plscfMpe "
-    "(Fn, Xi, Phi, covariances, order_out, exception class; tables with one distinct value per cell). oracle: list-of-pairs transition relation written from the property text on the same enumeration and "
+    "(Fn, Xi, Phi, covariances, order_out, exception class; tables with one distinct value per cell); menu[*]: histories in which the "
+    "dialog's MENU commands (show / hide unstable poles as the registered lambdas run them, help, save figure) are interleaved with the "
+    "canvas events, on tables whose finite poles are partly labelled unstable (Lab == 0), started with hide_poles 0 and 1, real redraw: "
+    "the model sees the canvas events only, so a menu command must leave (shift_is_held, sel_freq, pole_ind|freq_ind) untouched and a pick "
+    "must not depend on Lab / hide_poles. oracle: list-of-pairs transition relation written from the property text on the same enumeration and "
     "on random histories of <= 6 mouse actions, each followed by the real SSI_mpe / pLSCF_mpe on the handed-over pairs (Fn, order_out "
     "and every mode's damping, shape, covariances from one cell holding the picked frequency at the picked order); permuted click orders; mpe_from_plot end to end with only Tk patched "
     "(events dispatched through the real matplotlib callbacks), two dialogs in a row per algorithm object, three "
@@ -79,7 +94,9 @@ RULE = (
 EXTRA_TRUSTED = [
     "Tk main loop, matplotlib event dispatch and pixel->data transforms (events are injected at the handler level; "
     "the end-to-end run goes through matplotlib's CallbackRegistry with an Agg canvas)",
-    "redraw (plot_stab / plot_svPSD) does not touch the selection lists (exercised un-stubbed on a sample)",
+    "redraw (plot_stab / plot_svPSD) does not touch the selection lists (exercised un-stubbed on a sample; as far as writes through "
+    "`self` go it is now the obligation PV.WiringDialog.C16_state_writers over the regenerated table — what matplotlib does with the "
+    "lists it is handed stays trusted)",
 ]
 ASSUMPTIONS = [
     "event.xdata/ydata are numpy float64 (as matplotlib delivers them) or both None outside the axes",
@@ -98,11 +115,11 @@ def _sfp_cls():
     return SelFromPlot
 
 
-def mk_algo_stab(Fn):
+def mk_algo_stab(Fn, lab=None):
     Fn = np.asarray(Fn, float)
     return NS(
         fs=40.0,
-        result=NS(Fn_poles=Fn, Lab=np.where(np.isnan(Fn), 0.0, 1.0)),
+        result=NS(Fn_poles=Fn, Lab=np.where(np.isnan(Fn), 0.0, 1.0) if lab is None else np.asarray(lab, float)),
         run_params=NS(ordmin=0, ordmax=Fn.shape[1] - 1, step=1),
     )
 
@@ -411,6 +428,106 @@ def correspondence(ctx):
             import matplotlib.pyplot as plt
 
             plt.close("all")
+    _corr_menu(ctx)
+
+
+# ----------------------------------------------------------------------------- menu commands, unstable poles, hide_poles
+def apply_menu(s, m):
+    """run a menu command of the real dialog as `_initialize_gui` registers it; returns the exception class or None"""
+    import os
+    import tempfile
+
+    import pyoma2.support.sel_from_plot as sfp
+
+    try:
+        if m[1] == "show":  # "Show unstable poles": lambda: (self.toggle_hide_poles(0), self.toggle_legend(1))
+            s.toggle_hide_poles(0), s.toggle_legend(1)
+        elif m[1] == "hide":  # "Hide unstable poles"
+            s.toggle_hide_poles(1), s.toggle_legend(0)
+        elif m[1] == "help":
+            had = getattr(sfp.tk, "messagebox", None)
+            sfp.tk.messagebox = NS(showinfo=lambda *a, **k: None)
+            try:
+                s.show_help()
+            finally:
+                if had is None:
+                    del sfp.tk.messagebox
+                else:
+                    sfp.tk.messagebox = had
+        elif m[1] == "save":
+            cwd = os.getcwd()
+            with tempfile.TemporaryDirectory() as d:
+                os.chdir(d)
+                try:
+                    s.save_this_figure()
+                finally:
+                    os.chdir(cwd)
+    except Exception as ex:  # noqa: BLE001
+        return type(ex).__name__
+    return None
+
+
+def _corr_menu(ctx):
+    """(4) histories with MENU commands between the canvas events, on tables whose cells are partly labelled unstable
+    (Lab == 0 on finite poles), started with hide_poles 0 and 1, real redraw: the model sees the canvas events only —
+    a menu command must leave (shift_is_held, sel_freq, pole_ind | freq_ind) exactly as they were, and a pick must not
+    depend on the labels or on what is displayed."""
+    import matplotlib.pyplot as plt
+
+    for k in range(ctx.n(24, 400)):
+        plot = ctx.rng.choice(["SSI", "pLSCF", "SSI", "FDD"])
+        data = rand_table(ctx.rng) if plot in STAB else rand_freq(ctx.rng)
+        hide = ctx.rng.choice([0, 1])
+        if plot in STAB:
+            Fn = np.asarray(data, float)
+            lab = np.where(np.isnan(Fn), 0.0, np.array([[float(ctx.rng.random() < 0.5) for _ in row] for row in data]))
+            algo = mk_algo_stab(data, lab)
+        else:
+            algo = mk_algo_fdd(data, k)
+        s = mk_dialog(plot, algo, "nodraw", rand_band(ctx.rng))
+        if plot in STAB:
+            s.hide_poles = hide
+        menus = ["show", "hide", "help", "save"] if plot in STAB else ["help", "save"]
+        evs = []
+        for e in rand_history(ctx.rng, plot, data, ctx.rng.randint(4, 9), malformed=False, shifted=0.95):
+            evs.append(e)
+            if ctx.rng.random() < 0.45:
+                evs.append(("menu", ctx.rng.choice(menus)))
+        canvas = [e for e in evs if e[0] != "menu"]
+        model = ctx.model("pick_replay", events=[ev_json(e) for e in canvas], **plot_json(plot, data))
+        i = -1
+        last = {"shift": False, "sel_freq": [], "ind": [], "raised": None}
+        for j, e in enumerate(evs):
+            if e[0] == "menu":
+                r = apply_menu(s, e)
+                want = dict(last, raised=None)
+                key = ("menu", e[1], min(len(last["sel_freq"]), 3), bool(getattr(s, "hide_poles", None)))
+            else:
+                i += 1
+                r = apply_event(s, e)
+                want = last = model[i]
+                key = ("canvas", e[1], len(last["sel_freq"]), bool(getattr(s, "hide_poles", None)))
+                if plot in STAB and e[1] == 1 and r is None and s.shift_is_held and len(s.sel_freq):
+                    # was the picked pole one the chart does not display?
+                    hidden = [lab[a, b] == 0 for a in range(Fn.shape[0]) for b in set(s.pole_ind) if Fn[a, b] in s.sel_freq]
+                    if any(hidden) and s.hide_poles:
+                        ctx.count("menu_pick_near_hidden_pole")
+            o = obs(s)
+            ok = same(want, o, r)
+            ctx.corr(
+                f"menu[{plot}]",
+                ok,
+                {"plot": plot, "data": data, "hide_poles": hide, "lab": lab.tolist() if plot in STAB else None, "events": evs[: j + 1]} if not ok else None,
+                want,
+                {"state": o, "raised": r},
+                key,
+            )
+            if e[0] == "menu":
+                ctx.count(f"menu_{e[1]}")
+            if not ok:
+                break
+        ctx.count(f"menu_histories_hide{hide}" if plot in STAB else "menu_histories_fdd")
+        plt.close("all")
 
 
 def mpe_tables(Fn, with_cov, d=2):
